@@ -281,7 +281,7 @@ COMMON_TEXT = (" The rule is decided on MIR built with debug assertions; it carr
                "profile/debug-assertions-are-pure).")
 EXTRA = {
     "C16": "parse/*: the parser reads printed text as the variant, operands and numbers printed (C03's ast/*, numeric/value/hex|dec, program/*).",
-    "C12": "The run loop ends on an error halt as on a regular stop (run-loop/error-halt-*). cli/multi-option-one-value: repeatable options of `run` take one value per occurrence (generated clap definition).",
+    "C12": "The run loop ends on an error halt as on a regular stop (run-loop/error-halt-*). cli/multi-option-one-value: repeatable options of `run` take one value per occurrence (generated clap definition). cli/args-reach-runner/*: each RunnerConfigBuilder call in the CLI wrapper receives the like-named field of the parsed arguments (the program: the file read from args.program) through clone/into/deref/`?` only, by backward provenance on MIR; run() is called on the one builder chain that starts at the default builder.",
     "C04": "pipeline/frame/registers: per programmed word, an edge without a pending commit leaves R0-R7 (the interrupt-enable bit included) unchanged. gate/enable-store: a store of b to 0xF9 enables the key exactly for odd b (256 bytes).",
     "C01": "The bus rule of C10 (bus/*), the ALU rule of C08 (alu/*) and the fetch latch clause (fetch/*) are part of this rule.",
     "C02": "Under parse/*: the parser clauses ast/* (AST variant, operand order, no operand child dropped) and numeric/value "
